@@ -43,7 +43,7 @@ func mkConfig(router string) *config.Config {
 }
 
 // pool of announced names: shared prefixes, one name equal to a router's own routing prefix
-var pfxPoolStr = []string{"/a", "/a/b", "/a/32=b", "/a/b/c", "/a/c", "/b", "/b/1", "/net/x", "/net/pub/32=DV", "/c/%00", "/c/long/er/na/me", "/d", "/e"}
+var pfxPoolStr = []string{"/a", "/a/b", "/a/32=b", "/a/b/c", "/a/c", "/b", "/b/1", "/net/x", "/net/pub/32=DV", "/c/%00", "/c/long/er/na/me", "/d", "/e", "/"}
 
 type pfxPeer struct {
 	r        *dv.Router
@@ -577,9 +577,31 @@ func genSweepCase(w *bufio.Writer, rng *rand.Rand, k int, d int) []string {
 	do("jnew 1")
 	do("jreach 1 1")
 	do("jsync 1 c+0")
+	// one fetch fault (lost Interest or Data: timeout, or a Nack) in some histories: on the first fetch (the snapshot fetch
+	// when d is beyond the threshold), on a later op fetch, or after the Data was already answered; fetching must resume
+	faultAt, nack := -1, false
+	switch k % 4 {
+	case 1:
+		faultAt = 0
+	case 2:
+		faultAt, nack = 0, true
+	case 3:
+		faultAt, nack = 1+rng.Intn(5), rng.Intn(2) == 0
+	}
 	for i := 0; i < 140; i++ {
 		if pend, _ := c.pendingOf(c.peers[1]); pend == "-" {
 			break
+		}
+		if i == faultAt {
+			if rng.Intn(2) == 0 {
+				do("ans 1 -") // the Data is lost on its way back
+			}
+			if nack {
+				do("tmo 1 nack")
+			} else {
+				do("tmo 1")
+			}
+			continue
 		}
 		do("ans 1 -")
 		do("del 1")
